@@ -440,6 +440,13 @@ func slowGenBankOriginParser(length int) pars.Parser {
 				}
 			}
 
+			for _, c := range q[extent:] {
+				if !ascii.IsSpace(c) {
+					pos.Byte += extent
+					return pars.NewError("expected end of line", pos)
+				}
+			}
+
 			offset += copy(p[offset:], q[:extent])
 			p[offset] = '\n'
 			offset++
@@ -458,6 +465,10 @@ func makeGenbankOriginParser(length int) genbankSubparser {
 			}
 			pars.Line(state, result)
 
+			// This is the ORIGIN field: do not fall back to reading it as an
+			// unknown field if the block is malformed.
+			state.Clear()
+
 			if err := state.Request(toOriginLength(length)); err != nil {
 				return pars.NewError("not enough bytes in state", state.Position())
 			}
@@ -465,15 +476,19 @@ func makeGenbankOriginParser(length int) genbankSubparser {
 			p := state.Buffer()
 			if validateOrigin(p, length, state.Position()) == nil {
 				state.Advance()
-				gb.Origin = &Origin{p, false}
-				return nil
+			} else {
+				parser := slowGenBankOriginParser(length)
+				if err := parser(state, result); err != nil {
+					return err
+				}
+				p = result.Token
 			}
 
-			parser := slowGenBankOriginParser(length)
-			if err := parser(state, result); err != nil {
-				return err
+			// The block ends here: an indented line that follows would be
+			// residues beyond the declared length.
+			if c, err := pars.Next(state); err == nil && c == spaceByte {
+				return pars.NewError("more sequence lines than the declared length", state.Position())
 			}
-			p = result.Token
 
 			gb.Origin = &Origin{p, false}
 			return nil
